@@ -51,7 +51,6 @@ package keeper
 //@   ensures[C04.refund_effect] sdbSupply[payload(st.state)] == old(sdbSupply[payload(st.state)]) + (st.SenderPaidTheFee ? st.gas * bigval[st.gasPrice] : 0)
 //@   panics[C05.refund_never_panics] never
 
-
 // preCheck: nonce / EOA / fee-cap admission rules of go-ethereum, then buyGas (no balance debit: the fee was
 // taken by the ante handler).
 //@ func (st *StateTransition) preCheck() (err error)
@@ -79,7 +78,7 @@ package keeper
 //@   ensures[C05.used_gas] err == nil ==> (res != nil && st.initialGas == st.msg.Gas() && st.gas <= st.initialGas && res.UsedGas == st.initialGas - st.gas)
 //@   ensures[C05.pool] err == nil ==> *st.gp == old(*st.gp) - res.UsedGas
 //@   ensures[C06.nonce_plus_one] (err == nil && !st.msg.IsFake()) ==> sdbNonce[payload(st.state)][st.msg.From()] == old(sdbNonce[payload(st.state)][st.msg.From()]) + 1
-//@   ensures[C06.nonce_matched] (err == nil && !st.msg.IsFake()) ==> old(sdbNonce[payload(st.state)][st.msg.From()]) == st.msg.Nonce()
+//@   ensures[C06.nonce_matched] (err == nil && !st.msg.IsFake()) ==> (old(sdbNonce[payload(st.state)][st.msg.From()]) == st.msg.Nonce() && st.msg.Nonce() + 1 < pow2(64))
 //@   ensures[C04.supply_delta] err == nil ==> sdbSupply[payload(st.state)] <= old(sdbSupply[payload(st.state)]) + (st.SenderPaidTheFee ? st.gas * bigval[st.gasPrice] : 0)
 //@   ensures[C04.supply_other_denoms] forall den string :: sdbSupplyX[payload(st.state)][den] <= old(sdbSupplyX[payload(st.state)][den])
 //@   ensures[C06.sender_still_eoa] (err == nil && !st.msg.IsFake()) ==> isEmptyCodeHash(sdbCodeHash[payload(st.state)][st.msg.From()])
@@ -100,7 +99,12 @@ package keeper
 //@ ghost var trFlagNonce map[int]bool
 //@ ghost var trFlagPaid map[int]bool
 //@ ghost var trFlagNoBaseFee map[int]bool
-//@ axiom transient_ranges: forall l int, i int :: 0 <= trCount[l] && trCount[l] < pow2(64) && 0 <= trGas[l][i] && trGas[l][i] < pow2(64) && 0 <= trLogs[l][i] && trLogs[l][i] < pow2(64)
+//@ axiom transient_count_range: forall l int :: 0 <= trCount[l] && trCount[l] < pow2(64)
+//@ axiom transient_gas_range: forall l int, i int :: 0 <= trGas[l][i] && trGas[l][i] < pow2(64)
+//@ axiom transient_logs_range: forall l int, i int :: 0 <= trLogs[l][i] && trLogs[l][i] < pow2(64)
+
+// 64-bit unsigned addition of two in-range operands
+//@ ghost func u64add(a int, b int) int = a + b >= pow2(64) ? a + b - pow2(64) : a + b
 
 // running sums over the first n entries
 //@ ghost func sumTo(m map[int]int, n int) int = n <= 0 ? 0 : sumTo(m, n - 1) + m[n - 1]
@@ -180,7 +184,7 @@ package keeper
 //@   requires txConfig.TxType != nil ==> *txConfig.TxType <= 2
 //@   modifies wVersion[layer(ctx)], bankBal[layer(ctx)], bankSupply[layer(ctx)], acctSeq[layer(ctx)], acctExists[layer(ctx)], authVersion[layer(ctx)], trGas[layer(ctx)], trLogs[layer(ctx)], trReceipt[layer(ctx)], trHasReceipt[layer(ctx)], elems(type(common.Address))
 //@   ensures[C05.gas_used_le_limit] err == nil ==> (res != nil && res.GasUsed <= msg.Gas())
-//@   ensures[C06.nonce_advanced] (err == nil && commit && !msg.IsFake()) ==> (old(acctSeq[layer(ctx)][addrBytes(msg.From())]) == msg.Nonce() && acctSeq[layer(ctx)][addrBytes(msg.From())] == msg.Nonce() + 1)
+//@   ensures[C06.nonce_advanced] (err == nil && commit && !msg.IsFake()) ==> (old(acctSeq[layer(ctx)][addrBytes(msg.From())]) == msg.Nonce() && acctSeq[layer(ctx)][addrBytes(msg.From())] == msg.Nonce() + 1 && msg.Nonce() + 1 < pow2(64))
 //@   ensures[C04.supply_evm_denom] (err == nil && commit) ==> bankSupply[layer(ctx)][evmDenomOf[layer(ctx)]] <= old(bankSupply[layer(ctx)][evmDenomOf[layer(ctx)]]) + (trFlagPaid[layer(ctx)] ? (msg.Gas() - res.GasUsed) * bigval[msg.GasPrice()] : 0)
 //@   ensures[C04.supply_other_denoms] (err == nil && commit) ==> (forall den string :: den != evmDenomOf[layer(ctx)] ==> bankSupply[layer(ctx)][den] <= old(bankSupply[layer(ctx)][den]))
 //@   ensures[C08.no_commit_no_persistent_change] !commit ==> (wVersion[layer(ctx)] == old(wVersion[layer(ctx)]) && bankBal[layer(ctx)] == old(bankBal[layer(ctx)]) && bankSupply[layer(ctx)] == old(bankSupply[layer(ctx)]) && acctSeq[layer(ctx)] == old(acctSeq[layer(ctx)]) && acctExists[layer(ctx)] == old(acctExists[layer(ctx)]))
@@ -223,10 +227,11 @@ package keeper
 //@   requires txValue(tx) >= 0
 //@   requires txType(tx) <= 2 && gmLimit(payload(ctx.GasMeter())) == txGas(tx) && gmConsumed[payload(ctx.GasMeter())] <= gmLimit(payload(ctx.GasMeter()))
 //@   modifies wVersion[layer(ctx)], bankBal[layer(ctx)], bankSupply[layer(ctx)], acctSeq[layer(ctx)], acctExists[layer(ctx)], authVersion[layer(ctx)], trGas[layer(ctx)], trLogs[layer(ctx)], trReceipt[layer(ctx)], trHasReceipt[layer(ctx)], gmConsumed[payload(ctx.GasMeter())], gmToLimit[payload(ctx.GasMeter())], elems(type(common.Address))
-//@   ensures[C06.nonce_advanced] err == nil ==> (old(acctSeq[layer(ctx)][addrBytes(txSender(tx))]) == txNonce(tx) && acctSeq[layer(ctx)][addrBytes(txSender(tx))] == txNonce(tx) + 1)
+//@   ensures[C06.nonce_advanced] err == nil ==> (old(acctSeq[layer(ctx)][addrBytes(txSender(tx))]) == txNonce(tx) && acctSeq[layer(ctx)][addrBytes(txSender(tx))] == txNonce(tx) + 1 && txNonce(tx) + 1 < pow2(64))
 //@   ensures[C04.supply_evm_denom] err == nil ==> bankSupply[layer(ctx)][evmDenomOf[layer(ctx)]] <= old(bankSupply[layer(ctx)][evmDenomOf[layer(ctx)]]) + (trFlagPaid[layer(ctx)] ? (txGas(tx) - res.GasUsed) * min(txTipCap(tx) + fmBaseFee[layer(ctx)], txFeeCap(tx)) : 0)
 //@   ensures[C04.supply_other_denoms] err == nil ==> (forall den string :: den != evmDenomOf[layer(ctx)] ==> bankSupply[layer(ctx)][den] <= old(bankSupply[layer(ctx)][den]))
 //@   ensures[C05.error_no_persistent_change,C04.error_no_persistent_change] err != nil ==> (bankBal[layer(ctx)] == old(bankBal[layer(ctx)]) && bankSupply[layer(ctx)] == old(bankSupply[layer(ctx)]) && acctSeq[layer(ctx)] == old(acctSeq[layer(ctx)]))
+//@   ensures[C13.receipt_stored] err == nil ==> (trReceipt[layer(ctx)][max(1, trCount[layer(ctx)]) - 1] == bytes(res.MarshalledReceipt) && trCount[layer(ctx)] == old(trCount[layer(ctx)]))
 //@   ensures[C05.consensus_gas_is_receipt_gas] err == nil ==> (res != nil && gmConsumed[payload(ctx.GasMeter())] == res.GasUsed && res.GasUsed <= txGas(tx) && trGas[layer(ctx)][max(1, trCount[layer(ctx)]) - 1] == res.GasUsed)
 //@   ensures[C05.consume_all_on_core_error] (err != nil && coinbaseKnown(layer(ctx), hdr(ctx)) && txSigOk(tx)) ==> gmConsumed[payload(ctx.GasMeter())] == gmLimit(payload(ctx.GasMeter()))
 //@   panics any
@@ -255,3 +260,60 @@ package keeper
 //@   modifies nothing
 //@   ensures[C04.balance_view] result != nil && bigval[result] == (evmDenomOf[layer(ctx)] == "" ? -1 : bankBal[layer(ctx)][addrBytes(addr)][evmDenomOf[layer(ctx)]])
 //@   panics never
+
+// ---------------------------------------------------------------------------------------------
+// msg_server.go — the message handler of MsgEthereumTx
+// ---------------------------------------------------------------------------------------------
+//@ import context "context"
+//@ import crypto "github.com/ethereum/go-ethereum/crypto"
+//@ import sdkmath "cosmossdk.io/math"
+//@ import cmtbytes "github.com/cometbft/cometbft/libs/bytes"
+
+//@ func (k Keeper) SetFlagSenderNonceIncreasedByAnteHandle(ctx sdk.Context, increased bool)
+//@   assumed
+//@   modifies trFlagNonce[layer(ctx)]
+//@   ensures trFlagNonce[layer(ctx)] == increased
+//@   panics never
+//@ func (k Keeper) SetFlagSenderPaidTxFeeInAnteHandle(ctx sdk.Context, paid bool)
+//@   assumed
+//@   modifies trFlagPaid[layer(ctx)]
+//@   ensures trFlagPaid[layer(ctx)] == paid
+//@   panics never
+
+// the fee market keeper as x/evm sees it (implemented by x/feemarket/keeper.Keeper.GetBaseFee = GetParams(ctx).BaseFee)
+//@ func (fk evmtypes.FeeMarketKeeper) GetBaseFee(ctx sdk.Context) sdkmath.Int
+//@   assumed
+//@   modifies nothing
+//@   ensures inil(result) == fmBaseFeeNil[layer(ctx)] && (!inil(result) ==> iv(result) == fmBaseFee[layer(ctx)])
+//@   panics never
+
+// EthereumTx: what one delivered Ethereum transaction does to the sender's sequence (C06), to the coin supply (C04) and
+// to the gas the consensus result reports (C05). Preconditions are the facts the ante handler chain establishes
+// (decodable payload, valid bech32 sender that equals the recovered signer, gas meter limited to the tx gas).
+//@ func (k *Keeper) EthereumTx(goCtx context.Context, msg *evmtypes.MsgEthereumTx) (res *evmtypes.MsgEthereumTxResponse, err error)
+//@   requires k != nil && msg != nil && typeof(goCtx) == type(sdk.Context) && k.feeMarketKeeper != nil && k.bankKeeper != nil
+//@   requires bech32Valid(msg.From) && txDecodable(bytes(msg.MarshalledTx)) && decType(bytes(msg.MarshalledTx)) <= 2
+//@   requires bech32Bytes(msg.From) == addrBytes(decSender(bytes(msg.MarshalledTx)))
+//@   requires sdk.UnwrapSDKContext(goCtx).GasMeter() != nil && gmLimit(payload(sdk.UnwrapSDKContext(goCtx).GasMeter())) == decGas(bytes(msg.MarshalledTx)) && gmConsumed[payload(sdk.UnwrapSDKContext(goCtx).GasMeter())] <= decGas(bytes(msg.MarshalledTx))
+//@   requires !fmBaseFeeNil[layer(sdk.UnwrapSDKContext(goCtx))] && fmBaseFee[layer(sdk.UnwrapSDKContext(goCtx))] >= 0
+//@   ensures[C06.ante_increment_undone_once] old(trFlagNonce[layer(sdk.UnwrapSDKContext(goCtx))]) ==> old(acctSeq[layer(sdk.UnwrapSDKContext(goCtx))][bech32Bytes(msg.From)]) == (decNonce(bytes(msg.MarshalledTx)) + 1) % pow2(64)
+//@   ensures[C06.nonce_exactly_plus_one] err == nil ==> (acctSeq[layer(sdk.UnwrapSDKContext(goCtx))][bech32Bytes(msg.From)] == decNonce(bytes(msg.MarshalledTx)) + 1 && !trFlagNonce[layer(sdk.UnwrapSDKContext(goCtx))])
+//@   ensures[C06.nonce_matched_sequence] err == nil ==> old(acctSeq[layer(sdk.UnwrapSDKContext(goCtx))][bech32Bytes(msg.From)]) == decNonce(bytes(msg.MarshalledTx)) + (old(trFlagNonce[layer(sdk.UnwrapSDKContext(goCtx))]) ? 1 : 0)
+//@   ensures[C04.tx_conserves_supply] err == nil ==> (forall den string :: bankSupply[layer(sdk.UnwrapSDKContext(goCtx))][den] <= old(bankSupply[layer(sdk.UnwrapSDKContext(goCtx))][den]))
+//@   at call GetSdkEventForReceipt@1 assert[C13.event_tx_index] receipt.TransactionIndex == max(1, trCount[layer(ctx)]) - 1
+//@   at call GetSdkEventForReceipt@1 assert[C13.event_gas_used] receipt.GasUsed == response.GasUsed && response.GasUsed == trGas[layer(ctx)][max(1, trCount[layer(ctx)]) - 1]
+//@   at call GetSdkEventForReceipt@1 assert[C13.event_receipt_is_stored_receipt] rlpReceipt(receipt.Type, receipt.Status, receipt.CumulativeGasUsed, receipt.Bloom, base(receipt.Logs), off(receipt.Logs), len(receipt.Logs)) == trReceipt[layer(ctx)][max(1, trCount[layer(ctx)]) - 1]
+//@   at call GetSdkEventForReceipt@1 assert[C13.event_log_index] len(receipt.Logs) > 0 ==> receipt.Logs[0].Index == sumTo(trLogs[layer(ctx)], max(1, trCount[layer(ctx)]) - 1) % pow2(64)
+//@   at call GetSdkEventForReceipt@1 assert[C13.event_contract_address] (txIsCreate(ethTx) && response.VmError == "") ? receipt.ContractAddress == crypto.CreateAddress(bytesAddr(bech32Bytes(msg.From)), txNonce(ethTx)) : receipt.ContractAddress == zero(type(common.Address))
+//@   ensures[C05.consensus_gas_is_receipt_gas] err == nil ==> (res != nil && gmConsumed[payload(sdk.UnwrapSDKContext(goCtx).GasMeter())] == res.GasUsed && res.GasUsed <= decGas(bytes(msg.MarshalledTx)))
+//@   panics any
+
+// fillLogIndexes: the logs get the consecutive (64-bit) indices start, start+1, ...; nothing else is written.
+//@ func fillLogIndexes(logs []*ethtypes.Log, startLogIndex uint)
+//@   requires forall a int :: (0 <= a && a < len(logs)) ==> logs[a] != nil
+//@   requires forall a int, b int :: (0 <= a && a < b && b < len(logs)) ==> logs[a] != logs[b]
+//@   modifies fieldof(type(ethtypes.Log), Index)
+//@   ensures[C13.log_indexes_consecutive] forall j int :: (0 <= j && j < len(logs)) ==> logs[j].Index == u64add(startLogIndex, j)
+//@   panics never
+//@ loop 1
+//@   invariant -1 <= rangeindex && rangeindex < len(logs) && (forall j int :: (0 <= j && j <= rangeindex) ==> logs[j].Index == u64add(startLogIndex, j))
